@@ -134,7 +134,7 @@ def _wide(chk):
     read through the generated C++ at landmark environments; TLC (WideEval.tla, BigInt) decides Ok() and the value."""
     from . import c05, bounds_pool, bounds_cpp
     quick = chk.tier == "quick"
-    ncase, procs = (500, 4) if quick else (6000, 12)
+    ncase, procs = (300, 4) if quick else (6000, 12)
     with Scratch("c01w") as sc:
         jobs = [(lambda k=k: c05._gen(sc, "wide%d" % k, dict(Family='"wide"', Exhaustive="FALSE", MaxDepth=3, MaxMag=0, NVars=3, FullConsts="FALSE"),
                                       -(-ncase // procs), chk.seed * 1000 + 300 + k)) for k in range(procs)]
@@ -173,12 +173,12 @@ def _wide(chk):
 def run(chk, only=None):
     tier = chk.tier
     progs = view_catalog.catalog()
-    budget = 1500 if tier == "quick" else 20000
+    budget = 1000 if tier == "quick" else 20000
     total = 0
     with Scratch("c01") as sc:
         if only is not None and "enum" not in only:
             progs = []
-        gen, gres = view_run.generated_programs(sc, 14 if tier == "quick" else 300, chk.seed + 1, 5 if tier == "quick" else 6, 2)
+        gen, gres = view_run.generated_programs(sc, 10 if tier == "quick" else 300, chk.seed + 1, 5 if tier == "quick" else 6, 2)
         chk.add_tlc(gres, part="ProgGen")
         chk.extra["generated_programs"] = len(gen)
         progs = progs + (gen if only is None or "enum" in only else [])
